@@ -24,6 +24,7 @@ PROP = "C19"
 WATCHDOG_S = 3000
 PARS = {"T": 10 / 3600, "tau": 18 / 3600, "eta": 60.0, "kappa": 40.0, "delta": 0.0122, "phi": 1.8}
 KW = {k: v for k, v in PARS.items()}
+PARS_ALT = {"T": 5 / 3600, "tau": 25 / 3600, "eta": 30.0, "kappa": 55.0, "delta": 0.8, "phi": 1.0}
 
 
 class World:
@@ -53,6 +54,9 @@ class World:
         self.stepinfo = {}  # id(el) -> {"deps": {id(dep): gen}, "desc": desc, "objmap": objmap}
         self.counter = itertools.count(1)
         self.hist = []
+        # repeated compilations of one history use the same configuration (a memo of compiled
+        # functions would be hit)
+        self.compact = rng.choice((0, 0, 1, 2))
 
     # ----- live helpers
     def elements(self):
@@ -124,8 +128,9 @@ class World:
                                      "opts": opts}
         return None
 
-    def op_netstep(self):
-        self.net.step(engine=self.eng, **KW)
+    def op_netstep(self, pars=None):
+        pars = pars or PARS
+        self.net.step(engine=self.eng, **pars)
         desc, objmap = X.extract(self.M, self.net)
         for el in self.elements():
             if self.declared(el):
@@ -133,7 +138,7 @@ class World:
         for el in self.elements():
             if el._states:
                 self.stepinfo[id(el)] = {"deps": {id(d): self.gen[id(d)] for d in self.deps_of(el)}, "desc": desc,
-                                         "objmap": objmap, "opts": {}}
+                                         "objmap": objmap, "opts": {}, "pars": pars}
 
     def op_add_branch(self):
         self.net.add_link(self.N[1], self.L3, self.N[3]).add_destination(self.D2, self.N[3])
@@ -176,7 +181,7 @@ class World:
 
 def observe_compile(W_, rec, ctxhist):
     exp, why = W_.expected()
-    compact = W_.rng.choice((0, 0, 1, 2))
+    compact = W_.compact
     rec.count("compilations_observed")
     rec.seen("expectations", (exp, why))
     try:
@@ -235,7 +240,7 @@ def observe_compile(W_, rec, ctxhist):
                 vals_then[k] = vals_now[byobj_now[id(o)]]
         eid_then = om_then["#rev"][id(el)]
         try:
-            ref = R.ref_step(d_then, vals_then, PARS, info.get("opts"))
+            ref = R.ref_step(d_then, vals_then, info.get("pars") or PARS, info.get("opts"))
         except (R.Singular, R.Inadmissible):
             continue
         for v, e_ in ref.next[eid_then].items():
@@ -252,7 +257,7 @@ def observe_compile(W_, rec, ctxhist):
                     return
 
 
-OPS = ("init", "init", "reinit_same", "stepel", "stepel", "netstep", "netstep", "compile", "compile",
+OPS = ("init", "init", "reinit_same", "stepel", "stepel", "netstep", "netstep", "netstep_alt", "compile", "compile", "compile",
        "add_branch", "add_ramp", "replace_origin", "replace_link", "replace_dest", "replace_branch_dest")
 
 
@@ -272,10 +277,10 @@ def apply(W_, rec, op, arg=None):
             if bad:
                 rec.count("element_step_outcome_unexpected")
                 rec.seen("element_step_outcome_unexpected", bad)
-    elif op == "netstep":
+    elif op in ("netstep", "netstep_alt"):
         W_.hist.append(lab)
         try:
-            W_.op_netstep()
+            W_.op_netstep(PARS_ALT if op == "netstep_alt" else None)
         except Exception as e:
             rec.count("netstep_raised")
             rec.seen("netstep_raised", repr(e)[:100])
@@ -307,6 +312,11 @@ def run(M, rec, tier, seed, k, n):
         [("netstep", None), ("replace_origin", None), ("init", 3), ("stepel", 3), ("compile", None)],
         [("netstep", None), ("replace_link", None), ("netstep", None), ("add_branch", None), ("netstep", None), ("compile", None)],
         [("netstep", None), ("reinit_same", 0), ("compile", None)],
+        # several compilations in one history (same configuration): a memoised function must not survive
+        [("netstep", None), ("compile", None), ("init", 0), ("compile", None)],
+        [("netstep", None), ("compile", None), ("netstep_alt", None), ("compile", None)],
+        [("netstep", None), ("compile", None), ("netstep", None), ("compile", None), ("init", 3), ("compile", None)],
+        [("netstep_alt", None), ("compile", None), ("replace_origin", None), ("netstep", None), ("compile", None)],
         # a state-less element that declares a disturbance, attached after the last step
         [("add_branch", None), ("netstep", None), ("replace_branch_dest", None), ("compile", None)],
         [("netstep", None), ("replace_dest", None), ("compile", None)],
@@ -314,11 +324,13 @@ def run(M, rec, tier, seed, k, n):
     ]
     for j, seq in enumerate(scripted):
         for st in ("SX", "MX"):
-            W_ = World(M, st, rng)
-            for op, arg in seq:
-                if not apply(W_, rec, op, arg):
-                    break
-            rec.count("scripted_histories")
+            for compact in (0, 2):
+                W_ = World(M, st, rng)
+                W_.compact = compact
+                for op, arg in seq:
+                    if not apply(W_, rec, op, arg):
+                        break
+                rec.count("scripted_histories")
     # exhaustive short histories over a reduced alphabet, ending with compile
     small = [("netstep", None), ("init", 0), ("init", 1), ("init", 4), ("stepel", 0), ("stepel", 1), ("stepel", 3),
              ("add_ramp", None), ("replace_origin", None), ("add_branch", None), ("replace_link", None), ("reinit_same", 0),
